@@ -80,6 +80,65 @@ theorem cores_irrelevant {α β : Type} (f : α → β) (data : List α) (c c' :
   intro i h
   simp [parallelCompute, List.getElem?_eq_getElem h]
 
+/-- What is "pending at start": with a status dataset in the group, its zero entries; in a group left by an old
+    version (no status dataset, `last_pixel = k` finished positions) exactly the positions `k, k+1, …, n-1`; in a
+    fresh group every position. -/
+theorem pending_at_start (n : Nat) :
+    (∀ s lp, pending (initialStatus n (some s) lp) = pending s) ∧
+    (∀ k : Nat, 0 < k → pending (initialStatus n none (some (k : Int))) = List.range' (min k n) (n - k)) ∧
+    (∀ k : Int, k ≤ 0 → pending (initialStatus n none (some k)) = List.range n) ∧
+    pending (initialStatus n none none) = List.range n := by
+  have hz : pending (List.replicate n 0) = List.range n := by
+    unfold pending; rw [pendingFrom_zeros, List.range_eq_range']
+  refine ⟨fun s lp => rfl, ?_, ?_, hz⟩
+  · intro k hk
+    have : ((k : Int) > 0) := by omega
+    simp only [initialStatus, this, if_true, Int.toNat_natCast]
+    exact pending_markPrefix_zeros n k
+  · intro k hk
+    have : ¬ (k > 0) := by omega
+    simp only [initialStatus, this, if_false]
+    exact hz
+
+/-- Resuming a legacy group (`last_pixel = k`, `0 < k ≤ n`): the map function is invoked for the positions
+    `k … n-1` and no other, position `p` ends up holding `f p` exactly when `k ≤ p`, every earlier result is left
+    alone, and all marks are 1 afterwards. -/
+theorem legacy_resume {ρ : Type} (f : Nat → ρ) (old : List ρ) (n k batch : Nat) (hb : 0 < batch)
+    (hk : 0 < k) (hkn : k ≤ n) (hlen : old.length = n) :
+    let s : DS ρ := ⟨old, initialStatus n none (some (k : Int))⟩
+    (computeRun f s batch hb).2 = List.range' k (n - k) ∧
+    ∀ p, p < n →
+      (computeRun f s batch hb).1.results[p]? = (if k ≤ p then some (f p) else old[p]?) ∧
+      (computeRun f s batch hb).1.status[p]? = some 1 := by
+  intro s
+  have hst : s.status = markPrefix (List.replicate n 0) k := by
+    have : ((k : Int) > 0) := by omega
+    simp only [s, initialStatus, this, if_true, Int.toNat_natCast]
+  have hslen : s.status.length = n := by
+    rw [hst]; simp [markPrefix]; omega
+  have hget : ∀ p, p < n → s.status[p]? = some (if p < k then 1 else 0) := by
+    intro p hp
+    rw [hst]; unfold markPrefix
+    rw [List.drop_replicate, Nat.min_eq_left (by simpa using hkn)]
+    by_cases h : p < k
+    · rw [List.getElem?_append_left (by simpa using h)]; simp [h]
+    · rw [List.getElem?_append_right (by simpa using h)]
+      have hh : p - k < n - k := by omega
+      simp [h, hh]
+  refine ⟨?_, ?_⟩
+  · rw [(exactly_once f s batch hb).1, hst, pending_markPrefix_zeros, Nat.min_eq_left hkn]
+  · intro p hp
+    have hfs := final_state f s batch hb (by rw [hslen]; exact hlen) p (by rw [hslen]; exact hp)
+    rw [hget p hp] at hfs
+    by_cases h : p < k
+    · have h' : ¬ k ≤ p := by omega
+      simpa [h, h'] using hfs
+    · have h' : k ≤ p := by omega
+      simpa [h, h'] using hfs
+
+example : pending (initialStatus 6 none (some 4)) = [4, 5] ∧ pending (initialStatus 3 none (some 7)) = [] := by
+  decide
+
 example : (computeRun (fun p => 10 * p) ⟨[7, 7, 7, 7, 7], [0, 1, 0, 0, 1]⟩ 2 (by decide)).1.results = [0, 7, 20, 30, 7] ∧
     (computeRun (fun p => 10 * p) ⟨[7, 7, 7, 7, 7], [0, 1, 0, 0, 1]⟩ 2 (by decide)).2 = [0, 2, 3] := by
   simp [computeRun, rankBatches, windows, pending, pendingFrom, rankStart, rankEnd, pySlice, applyBatch]
